@@ -5,6 +5,10 @@
 
 using namespace mfuse;
 
+#ifdef MORFUSE_VERIF
+void (*mfuse::verif::arena_trap)(int kind, size_t need, size_t have) = nullptr;
+#endif
+
 MEM::PreAllocator::PreAllocator()
     : allocatedBlock(nullptr)
 {
@@ -38,6 +42,11 @@ MEM::PreAllocator::~PreAllocator()
 
 void* MEM::PreAllocator::Alloc(size_t size)
 {
+#ifdef MORFUSE_VERIF
+    if (verif::arena_trap && (!current || size > size_t(endBlock - current))) {
+        verif::arena_trap(0, size, current ? size_t(endBlock - current) : 0);
+    }
+#endif
     assert(current + size <= endBlock);
 
     void* const newPtr = current;
